@@ -456,7 +456,7 @@ func init() {
 		Level:   "model_checking",
 		Workers: 1,
 		Rule: "breadth-first search over all legal sequences, to depth 5 (quick) / 6 (thorough), of 37 memory operations as the VM issues them on the real memory.Type: push bursts of 1/2/126/127/128/129/300 values, pop, pop all, capture the top frame for a function value, call with (args, locals) in {(0,0),(2,1),(1,127),(0,128),(1,255),(0,300)} and no / the oldest / the newest captured frame, return, set first / last local, set global, fork a context (fresh or recycled memory), switch to parent / child, destroy a context; every written value is a fresh tag. After every transition the whole live content of every memory (all frames' locals, return addresses, operands), the accessor views (LookUpLocal, LookUpClosure, LookUpGlobal) and every captured frame are compared with a list-of-frames model in which a captured frame is the definer's live frame until it returns. " +
-			"Successors are built by replaying the shortest path on a fresh instance; states are deduplicated on (current memory, sp, stack length, frame pointers, closure depth per memory, which frame each captured header refers to, recycle pool). Plus a program-level twin (every order of three variable-introducing constructs - assignment, for, zip over existing and new variables, inner function - in one function, all variables tagged and read back, compared with the reference model) and linear families: recursion to depth 100000 with a captured frame re-read at every allocation boundary",
+			"Successors are built by replaying the shortest path on a fresh instance; states are deduplicated on (current memory, sp, stack length, frame pointers, closure depth per memory, which frame each captured header refers to, recycle pool). Plus a program-level twin (every order of three variable-introducing constructs - assignment, for, zip over existing and new variables, inner function - in one function, all variables tagged and read back, compared with the reference model; closures created in generator contexts at nesting 0..2, taken from an abandoned or a finished loop, read again after six kinds of further loops forked and recycled contexts in the same statement) and linear families: recursion to depth 100000 with a captured frame re-read at every allocation boundary",
 		Assumptions: []string{"the state key drops values: sound by data independence (memory.go never branches on a value outside DumpStack)", "at most 3 live memories, 3 call frames and 3 captured frames per state"},
 		Exec: func(payload string) (string, string) {
 			if st := stmtsOf(payload); len(st) > 0 {
@@ -627,6 +627,50 @@ func c18Run(w *core.W) {
 				w.NonTrivial()
 				if sig, detail := sessExec(sess.Options{})(payloadOf(prog)); sig != "" {
 					w.Fail(payloadOf(prog), "program:"+sig, detail)
+				}
+			}
+		}
+	}
+	// variables captured inside generator contexts (nesting 0..2) that are abandoned or run to their end, read again
+	// after other generator contexts were forked and recycled in the same statement
+	w.Family("variables-under-context-recycling")
+	{
+		pre := []string{
+			"mkg = () -> {\n  k = \"ka\"\n  yield () -> k\n  k = \"kb\"\n  yield () -> k\n}",
+			"relay = () -> for c <- mkg() yield c",
+			"relayb = () -> for c <- relay() yield c",
+			"first = (g) -> for c <- g() return c",
+			"last = (g) -> {\n  r = 0\n  for c <- g() r = c\n  r\n}",
+			"evens = (m) -> for n <- fromto(0, m) if n % 2 == 0 yield n",
+			"lsum = (m) -> {\n  t = 0\n  for i <- fromto(0, m) t = t + i\n  t\n}",
+		}
+		churns := []string{
+			"for i <- fromto(0, 3) s = s + i",
+			"for i, j <- fromto(0, 3), elems(\"abc\") s = s + i",
+			"for i, j <- evens(6), evens(8) s = s + i + j",
+			"for i <- fromto(0, 2) for j <- evens(4) s = s + i + j",
+			"s = s + lsum(5)",
+			"for c <- relayb() s = s + 1",
+		}
+		for _, pick := range []string{"first", "last"} {
+			for _, src := range []string{"mkg", "relay", "relayb"} {
+				for _, ch := range churns {
+					for _, twice := range []bool{false, true} {
+						body := "  h = " + pick + "(" + src + ")\n  before = h()\n  s = 0\n  " + ch + "\n"
+						if twice {
+							body += "  hh = " + pick + "(" + src + ")\n  " + ch + "\n  [before, h(), hh(), s]\n"
+						} else {
+							body += "  [before, h(), s]\n"
+						}
+						prog := append(append([]string{}, pre...), "f = () -> {\n"+body+"}", "f()", "[f(), f()]", "{\n"+body+"}")
+						if !w.Mine(strings.Join(prog, "\n")) {
+							continue
+						}
+						w.NonTrivial()
+						if sig, detail := sessExec(sess.Options{})(payloadOf(prog)); sig != "" {
+							w.Fail(payloadOf(prog), "program:"+sig, detail)
+						}
+					}
 				}
 			}
 		}
